@@ -1,0 +1,17 @@
+//go:build !verif
+
+// Package vhook provides verification hooks. They are active only with build tag "verif"; without the tag every
+// function is an empty inlinable stub and Enabled is a false constant, so call sites compile to nothing.
+package vhook
+
+// Enabled tells whether the hooks are compiled in
+const Enabled = false
+
+// E reports an event (no-op without build tag "verif")
+func E(string, ...any) {}
+
+// G passes a gate (no-op without build tag "verif")
+func G(string) {}
+
+// K passes a kill point (no-op without build tag "verif")
+func K(string) {}
